@@ -65,6 +65,10 @@ def obligations(tier):
         o = ob("C12", "e2c.ctl.n3.k%s" % k, "vt.harness.C12:items", {"n": 3, "conc": k, "steps": 5, "control": "either"}, timeout=900)
         o["antecedents"] = ["c12_item_offers"]
         obs.append(o)
+    for k in (None, 2):
+        o = ob("C12", "e2c.cascade.n3.k%s" % k, "vt.harness.C12:items", {"n": 3, "conc": k, "steps": 6, "control": "either", "intermediate": True, "statuses": ["succeeded", "canceled"]}, timeout=1200)
+        o["antecedents"] = ["c12_item_offers"]
+        obs.extend(control_slices(o, 4))
     o = ob("C12", "e2c.sib.n3.k2", "vt.harness.C12:items", {"n": 3, "conc": 2, "sibling": True, "steps": 6, "control": "either"}, timeout=1200)
     obs.extend(control_slices(o, 7))
     obs.append(ob("C12", "twin.n3", "vt.harness.C12:items", {"n": 3, "conc": 2, "steps": 5, "twin": True}, timeout=60))
